@@ -234,12 +234,85 @@ func vbRunScenario(args []string) string {
 		}
 	}
 	set := func(k, v string) { mu.Lock(); results[k] = v; mu.Unlock() }
+	// Sequenced mode (event Q): an event scheduled at time t is not launched before the effects of the events
+	// scheduled at least 100 ms earlier have taken place (poll registered; poll expired when its 10 s are over;
+	// client / answer arrived), so that a loaded machine cannot reorder well-separated events. Herds do not use it.
+	sequenced := false
+	for _, e := range evs {
+		if e.kind == 'Q' {
+			sequenced = true
+		}
+	}
+	type evState struct {
+		arrived  time.Time
+		returned bool
+	}
+	states := map[string]*evState{}
+	var stMu sync.Mutex
+	mark := func(key string, ret bool) {
+		stMu.Lock()
+		st := states[key]
+		if st == nil {
+			st = &evState{}
+			states[key] = st
+		}
+		if ret {
+			st.returned = true
+		} else {
+			st.arrived = time.Now()
+		}
+		stMu.Unlock()
+	}
+	get := func(key string) evState {
+		stMu.Lock()
+		defer stMu.Unlock()
+		if st := states[key]; st != nil {
+			return *st
+		}
+		return evState{}
+	}
+	registered := func(sid string) bool {
+		ctx.snowflakeLock.Lock()
+		_, ok := ctx.idToSnowflake[sid]
+		ctx.snowflakeLock.Unlock()
+		return ok
+	}
+	gate := func(e vbEvent) {
+		if !sequenced || e.isRel {
+			return
+		}
+		deadline := time.Now().Add(6 * time.Second)
+		for _, p := range evs {
+			if p.isRel || p.kind == 'W' || p.kind == 'Q' || p.kind == 'L' || p.at+100 > e.at || (p.kind == e.kind && p.k == e.k) {
+				continue
+			}
+			key := fmt.Sprintf("%c%d", p.kind, p.k)
+			for time.Now().Before(deadline) {
+				st := get(key)
+				ok := false
+				switch p.kind {
+				case 'P':
+					ok = st.returned || (!st.arrived.IsZero() && registered(p.f[0]))
+					if ok && p.at+10000+100 <= e.at && !st.returned {
+						// its 10 s are over: it must have expired or been matched (then it has returned too)
+						ok = false
+					}
+				default:
+					ok = st.returned || (!st.arrived.IsZero() && time.Since(st.arrived) > 40*time.Millisecond)
+				}
+				if ok {
+					break
+				}
+				time.Sleep(3 * time.Millisecond)
+			}
+		}
+	}
 	start := time.Now()
 	var wg sync.WaitGroup
 	for _, e := range evs {
 		e := e
 		key := fmt.Sprintf("%c%d", e.kind, e.k)
-		if e.kind == 'W' {
+		if e.kind == 'W' || e.kind == 'Q' {
 			continue
 		}
 		set(key, "blocked")
@@ -266,12 +339,16 @@ func vbRunScenario(args []string) string {
 				time.Sleep(time.Duration(e.relDt) * time.Millisecond)
 			} else {
 				time.Sleep(time.Until(start.Add(time.Duration(e.at) * time.Millisecond)))
+				gate(e)
 			}
+			mark(key, false)
+			defer mark(key, true)
 			switch e.kind {
 			case 'P':
 				cl, _ := strconv.Atoi(e.f[3])
 				res, got := vbDoPoll(i, e.f[0], e.f[1], e.f[2], cl)
 				set(key, res)
+				mark(key, true)
 				pollDone[e.k] <- got
 			case 'C':
 				set(key, vbDoClient(i, e.f[0], e.f[1], e.f[2], e.f[3]))
